@@ -375,6 +375,46 @@ def kernel_crosscheck(pid, lines, expected, k=48):
     return len(idx), bad
 
 
+# ---------------------------------------------------------------- source fingerprints
+#
+# fingerprints.json (committed; written by tools/fingerprint.py) records, per property, a hash of the syntax trees of
+# the baize files the property is anchored in (properties.jsonl), taken when the model was last validated against them.
+# A different hash is NOT an alarm (a harmless rewrite changes it too): it only makes the quick tier generate the
+# thorough tier's cases, i.e. code that changed since the last validation is compared more deeply.
+
+
+def anchored_files(pid):
+    try:
+        for line in open(os.path.join(VERIF, "properties.jsonl")):
+            p = json.loads(line)
+            if p.get("id") == pid:
+                return sorted(p.get("anchors", {}).get("files", []))
+    except Exception:
+        pass
+    return []
+
+
+def source_fingerprint(pid, repo=None):
+    import ast
+    h = hashlib.sha256()
+    for f in anchored_files(pid):
+        path = os.path.join(repo or REPO, f)
+        try:
+            tree = ast.parse(open(path, encoding="utf-8").read())
+            h.update((f + "\0" + ast.dump(tree, annotate_fields=False, include_attributes=False)).encode("utf-8"))
+        except Exception as e:  # unreadable / does not parse: certainly changed
+            h.update((f + "\0!" + type(e).__name__).encode())
+    return h.hexdigest()
+
+
+def sources_changed(pid):
+    try:
+        rec = json.load(open(os.path.join(VERIF, "fingerprints.json"))).get(pid)
+    except Exception:
+        rec = None
+    return rec is not None and rec != source_fingerprint(pid)
+
+
 # ---------------------------------------------------------------- known findings
 
 
@@ -423,6 +463,7 @@ def run_check(mod, tier, seed, replay=None):
         "harness/%s.py implementation driver, generators and canonicaliser" % mod.__name__.split(".")[-1],
     ]
     proofs = check_proofs(pid, tier)
+    escalated = False
 
     # ---- cases
     if replay:
@@ -436,7 +477,13 @@ def run_check(mod, tier, seed, replay=None):
         for c in corpus:
             cases.append(c)
         dist["corpus"] = len(corpus)
-        for label, c in mod.cases(tier, rng):
+        case_tier = tier
+        if tier == "quick" and os.environ.get("VERIF_NO_ESCALATE") != "1" and sources_changed(pid):
+            case_tier = "thorough"
+            escalated = True
+            print("note: the baize files %s is anchored in differ from the ones its model was last validated against: "
+                  "generating the thorough tier's cases" % pid)
+        for label, c in mod.cases(case_tier, rng):
             cases.append(c)
             dist[label] = dist.get(label, 0) + 1
     # ---- both sides (a module may render its cases for the model itself: ENCODE)
@@ -561,6 +608,7 @@ def run_check(mod, tier, seed, replay=None):
                 "oracle_failures": len(failures), "known_finding_hits": sorted(known_hits),
                 "exhaustive": bool(getattr(mod, "EXHAUSTIVE", {}).get(tier, False)),
                 "partial": getattr(mod, "PARTIAL", ""),
+                "anchored_sources_changed_cases_escalated": escalated,
             },
             "assumptions": list(getattr(mod, "ASSUMPTIONS", [])),
             "wall_s": round(time.time() - t0, 2),
